@@ -168,118 +168,6 @@ def ssaCheck (f : Func) (T : DomTab) : Bool :=
 
 end Model.OptCheck
 
-/-! ## substitution validator: operands replaced by operands that provably hold the same value
-
-`checkSubst m m'`: same functions, blocks and instructions; in `m'` operands may be replaced by other
-operands (and a conditional jump on two known constants by the jump taken), where each replacement is
-justified at its program point by the equations of pure instructions of the ORIGINAL function whose
-definitions strictly dominate that point (`justB`, `knownInt`):
-  * CSE: `x := a op b`, `y := a' op b'` with the same operator/type and justified-equal operands;
-  * constants: `x := const c`, `y := const c` ; integer constant expressions with the same value
-    (`Spec.IR.intBinop` / `Spec.IRArith.cast` on known integer values) — constant folding.
-Soundness: `Proofs.Opt.Subst.checkSubst_sound`. -/
-namespace Model.OptCheck
-open Spec.IR Model.Opt
-
-/-- the integer value an operand is known to have at point `u` (from constants, integer binops and casts
-    whose definitions strictly dominate `u`) -/
-def knownInt (f : Func) (T : DomTab) (u : Pos) : Nat → Operand → Option Int
-  | 0, _ => none
-  | n + 1, .glob _ => none
-  | n + 1, .loc x =>
-    match defPos f x with
-    | none => none
-    | some p =>
-      if sdomPt T p u then
-        match instrAtPos f p with
-        | some (.const _ (.int t) (.int v)) => some (Spec.IRArith.wrap t v)
-        | some (.binop _ (.int t) op a b) =>
-          match knownInt f T u n a, knownInt f T u n b with
-          | some xa, some xb =>
-            (match intBinop t op xa xb with
-             | .ok (.int v) => some v
-             | _ => none)
-          | _, _ => none
-        | some (.cast _ (.int t) a) =>
-          (match knownInt f T u n a with
-           | some xa => some (Spec.IRArith.cast t xa)
-           | none => none)
-        | _ => none
-      else none
-
-/-- `o'` provably holds the value of `o` at point `u` -/
-def justB (f : Func) (T : DomTab) (u : Pos) : Nat → Operand → Operand → Bool
-  | 0, o, o' => o == o'
-  | n + 1, o, o' =>
-    o == o' ||
-    (match knownInt f T u (n + 1) o, knownInt f T u (n + 1) o' with
-     | some v, some v' => v == v'
-     | _, _ => false) ||
-    (match o, o' with
-     | .loc x, .loc y =>
-       (match defPos f x, defPos f y with
-        | some px, some py =>
-          sdomPt T px u && sdomPt T py u &&
-          (match instrAtPos f px, instrAtPos f py with
-           | some (.binop _ t op a b), some (.binop _ t' op' a' b') =>
-             t == t' && op == op' && justB f T u n a a' && justB f T u n b b'
-           | some (.const _ t c), some (.const _ t' c') => t == t' && c == c'
-           | _, _ => false)
-        | _, _ => false)
-     | _, _ => false)
-
-def lookupOp : List (Operand × Operand) → Operand → Option Operand
-  | [], _ => none
-  | (a, b) :: r, o => if o = a then some b else lookupOp r o
-
-/-- index of the terminator of block `bn` -/
-def endIdx (f : Func) (bn : String) : Nat :=
-  match f.findBlock bn with
-  | some b => b.instrs.length - 1
-  | none => 0
-
-def justFuel (f : Func) : Nat := (allNames f).length + 2
-
-/-- the callee of a call is never replaced -/
-def calleeSame : Instr → Instr → Bool
-  | .fcall _ _ c _, .fcall _ _ c' _ => c = c'
-  | .pcall c _, .pcall c' _ => c = c'
-  | _, _ => true
-
-/-- instruction `i` at point `u` of `f` may become `i'` -/
-def instrOk (f : Func) (T : DomTab) (u : Pos) (i i' : Instr) : Bool :=
-  i = i' ||
-  (let σ := (allOps i).zip (allOps i')
-   let g : Operand → Operand := fun o => (lookupOp σ o).getD o
-   i' = mapOps g i && calleeSame i i' &&
-   i.uses.all (fun o => justB f T u (justFuel f) o (g o)) &&
-   i.phiIns.all (fun p => justB f T (p.1, endIdx f p.1) (justFuel f) p.2 (g p.2)))
-
-def instrsOk (f : Func) (T : DomTab) (bn : String) : Nat → List Instr → List Instr → Bool
-  | _, [], [] => true
-  | k, i :: r, i' :: r' => instrOk f T (bn, k) i i' && instrsOk f T bn (k + 1) r r'
-  | _, _, _ => false
-
-def blocksOk (f : Func) (T : DomTab) : List Block → List Block → Bool
-  | [], [] => true
-  | b :: bs, b' :: bs' => b.name = b'.name && instrsOk f T b.name 0 b.instrs b'.instrs && blocksOk f T bs bs'
-  | _, _ => false
-
-def checkSubstFn (f f' : Func) : Bool :=
-  let T := computeDoms f
-  f.name = f'.name && f.params = f'.params && f.ret = f'.ret && f.entry = f'.entry &&
-  ssaCheck f T && blocksOk f T f.blocks f'.blocks
-
-def funcsSubst : List Func → List Func → Bool
-  | [], [] => true
-  | f :: fs, f' :: fs' => checkSubstFn f f' && funcsSubst fs fs'
-  | _, _ => false
-
-def checkSubst (m m' : Module) : Bool :=
-  m.externs = m'.externs && m.vars = m'.vars && funcsSubst m.funcs m'.funcs
-
-end Model.OptCheck
-
 /-! ## typing facts (checked): integer operands of integer binops / phis / returns / direct calls have the
 declared integer type.  `Proofs.Opt.Typing` proves from them that every integer-typed local always holds a
 value in the range of its type (needed for `x + 0 = x`). -/
@@ -321,5 +209,142 @@ def instrTyOk (m : Module) (f : Func) : Instr → Bool
   | _ => true
 
 def tyCheck (m : Module) (f : Func) : Bool := f.blocks.all fun b => b.instrs.all (instrTyOk m f)
+
+end Model.OptCheck
+
+/-! ## substitution validator: operands replaced by operands that provably hold the same value
+
+`checkSubst m m'`: same functions, blocks and instructions; in `m'` operands may be replaced by other
+operands (and a conditional jump on two known constants by the jump taken), where each replacement is
+justified at its program point by the equations of pure instructions of the ORIGINAL function whose
+definitions strictly dominate that point (`justB`, `knownInt`):
+  * CSE: `x := a op b`, `y := a' op b'` with the same operator/type and justified-equal operands;
+  * constants: `x := const c`, `y := const c` ; integer constant expressions with the same value
+    (`Spec.IR.intBinop` / `Spec.IRArith.cast` on known integer values) — constant folding.
+Soundness: `Proofs.Opt.Subst.checkSubst_sound`. -/
+namespace Model.OptCheck
+open Spec.IR Model.Opt
+
+/-- the integer value an operand is known to have at point `u` (from constants, integer binops and casts
+    whose definitions strictly dominate `u`) -/
+def knownInt (f : Func) (T : DomTab) (u : Pos) : Nat → Operand → Option Int
+  | 0, _ => none
+  | n + 1, .glob _ => none
+  | n + 1, .loc x =>
+    match defPos f x with
+    | none => none
+    | some p =>
+      if sdomPt T p u then
+        match instrAtPos f p with
+        | some (.const _ (.int t) (.int v)) => some (Spec.IRArith.wrap t v)
+        | some (.binop _ (.int t) op a b) =>
+          match knownInt f T u n a, knownInt f T u n b with
+          | some xa, some xb =>
+            (match intBinop t op xa xb with
+             | .ok (.int v) => some v
+             | _ => none)
+          | _, _ => none
+        | some (.cast _ (.int t) a) =>
+          (match knownInt f T u n a with
+           | some xa => some (Spec.IRArith.cast t xa)
+           | none => none)
+        | _ => none
+      else none
+
+/-- `x := a + 0`, `x := 0 + b`, `x := a * 1` at integer type: the operand that `x` is a copy of
+    (only used when the module passes `tyCheck`: the copy is exact because the operand is in range) -/
+def copyOf (f : Func) (T : DomTab) (u : Pos) (fuel : Nat) : Operand → Option Operand
+  | .glob _ => none
+  | .loc x =>
+    match defPos f x with
+    | none => none
+    | some px =>
+      if sdomPt T px u then
+        match instrAtPos f px with
+        | some (.binop _ (.int t) .add a b) =>
+          if knownInt f T u fuel b = some 0 && opTy f a = some (.int t) then some a
+          else if knownInt f T u fuel a = some 0 && opTy f b = some (.int t) then some b
+          else none
+        | some (.binop _ (.int t) .mul a b) =>
+          if knownInt f T u fuel b = some 1 && opTy f a = some (.int t) then some a else none
+        | _ => none
+      else none
+
+/-- `o'` provably holds the value of `o` at point `u`; `ty` = the module passes `tyCheck` -/
+def justB (f : Func) (T : DomTab) (ty : Bool) (u : Pos) : Nat → Operand → Operand → Bool
+  | 0, o, o' => o == o'
+  | n + 1, o, o' =>
+    o == o' ||
+    (ty && (match copyOf f T u (n + 1) o with
+       | some a => justB f T ty u n a o'
+       | none => false)) ||
+    (match knownInt f T u (n + 1) o, knownInt f T u (n + 1) o' with
+     | some v, some v' => v == v'
+     | _, _ => false) ||
+    (match o, o' with
+     | .loc x, .loc y =>
+       (match defPos f x, defPos f y with
+        | some px, some py =>
+          sdomPt T px u && sdomPt T py u &&
+          (match instrAtPos f px, instrAtPos f py with
+           | some (.binop _ t op a b), some (.binop _ t' op' a' b') =>
+             t == t' && op == op' && justB f T ty u n a a' && justB f T ty u n b b'
+           | some (.const _ t c), some (.const _ t' c') => t == t' && c == c'
+           | _, _ => false)
+        | _, _ => false)
+     | _, _ => false)
+
+def lookupOp : List (Operand × Operand) → Operand → Option Operand
+  | [], _ => none
+  | (a, b) :: r, o => if o = a then some b else lookupOp r o
+
+/-- index of the terminator of block `bn` -/
+def endIdx (f : Func) (bn : String) : Nat :=
+  match f.findBlock bn with
+  | some b => b.instrs.length - 1
+  | none => 0
+
+def justFuel (f : Func) : Nat := (allNames f).length + 2
+
+/-- the callee of a call is never replaced -/
+def calleeSame : Instr → Instr → Bool
+  | .fcall _ _ c _, .fcall _ _ c' _ => c = c'
+  | .pcall c _, .pcall c' _ => c = c'
+  | _, _ => true
+
+/-- instruction `i` at point `u` of `f` may become `i'` -/
+def instrOk (f : Func) (T : DomTab) (ty : Bool) (u : Pos) (i i' : Instr) : Bool :=
+  i = i' ||
+  (let σ := (allOps i).zip (allOps i')
+   let g : Operand → Operand := fun o => (lookupOp σ o).getD o
+   i' = mapOps g i && calleeSame i i' &&
+   i.uses.all (fun o => justB f T ty u (justFuel f) o (g o)) &&
+   i.phiIns.all (fun p => justB f T ty (p.1, endIdx f p.1) (justFuel f) p.2 (g p.2)))
+
+def instrsOk (f : Func) (T : DomTab) (ty : Bool) (bn : String) : Nat → List Instr → List Instr → Bool
+  | _, [], [] => true
+  | k, i :: r, i' :: r' => instrOk f T ty (bn, k) i i' && instrsOk f T ty bn (k + 1) r r'
+  | _, _, _ => false
+
+def blocksOk (f : Func) (T : DomTab) (ty : Bool) : List Block → List Block → Bool
+  | [], [] => true
+  | b :: bs, b' :: bs' => b.name = b'.name && instrsOk f T ty b.name 0 b.instrs b'.instrs && blocksOk f T ty bs bs'
+  | _, _ => false
+
+def checkSubstFn (ty : Bool) (f f' : Func) : Bool :=
+  let T := computeDoms f
+  f.name = f'.name && f.params = f'.params && f.ret = f'.ret && f.entry = f'.entry &&
+  ssaCheck f T && blocksOk f T ty f.blocks f'.blocks
+
+def funcsSubst (ty : Bool) : List Func → List Func → Bool
+  | [], [] => true
+  | f :: fs, f' :: fs' => checkSubstFn ty f f' && funcsSubst ty fs fs'
+  | _, _ => false
+
+/-- every function of the module passes the typing check (enables the `x + 0 = x` justifications) -/
+def tyModule (m : Module) : Bool := m.funcs.all (tyCheck m)
+
+def checkSubst (m m' : Module) : Bool :=
+  m.externs = m'.externs && m.vars = m'.vars && funcsSubst (tyModule m) m.funcs m'.funcs
 
 end Model.OptCheck
